@@ -69,10 +69,21 @@ def ray_hit(spec, ang):
     return 0.5 * (lo + hi)
 
 
-def tight(spec, reach):
-    """tolerance of the tight comparisons: 1e-12 of the distance the result is from the centre (plus the rounding
-    of `pos + offset`, a few ulp of |pos|) — relative, no floor"""
-    return 1e-12 * reach + 16 * EPS * abs(centre_of(spec))
+def tight(spec, reach, r=1.0):
+    """tolerance of the tight comparisons: 1e-12 of the distance the result is from the centre, plus the rounding of
+    `pos + offset` / `vertices - pos` (a few hundred ulp of |pos|; for a wrapped cell also of the position of the
+    cell it wraps, whose stored absolute corners are subtracted; that part is scaled by the ratio like the border
+    point itself) — relative, no floor"""
+    b = B()
+    tol = 1e-12 * reach + 256 * EPS * abs(centre_of(spec))
+    if spec['kind'] == 'wrap':
+        tol += r * 256 * EPS * abs(b.spec_pos(spec['inner']))
+    return tol
+
+
+def rounding(spec, r=1.0):
+    """the part of `tight` that stands for the rounding of `pos + offset`"""
+    return tight(spec, 0.0, r)
 
 
 def ratio_bucket(r):
@@ -132,7 +143,7 @@ def _o_close(case):
                     sh = b.make_shape(spec)
                     p = complex(sh.get_border_point(ang, r))
                     e = c + r * t * d
-                    if abs(p - e) > tight(spec, r * t):
+                    if abs(p - e) > tight(spec, r * t, r):
                         return cls, ('get_border_point(%r, %r) = %r, the point at ratio %r of the border point %r is %r'
                                      % (ang, r, p, r, c + t * d, e))
                 if case.get('users', True) and kind in ('hex', 'sec3', 'square'):
@@ -163,7 +174,7 @@ def _o_close(case):
                         reff = 1.0 - 1e-15 if r == 1.0 else r
                         p = complex(users()[-1].pos)
                         e = c + reff * t * d
-                        if len(users()) != 1 or abs(p - e) > tight(spec, reff * t):
+                        if len(users()) != 1 or abs(p - e) > tight(spec, reff * t, reff):
                             return cls + ':' + path, ('add_border_user(%r, %r): user at %r, expected %r (ratio x border point %r)'
                                                       % (ang, r, p, e, c + t * d))
         return None
@@ -178,7 +189,7 @@ def _o_close(case):
         for ang, p in zip(case['angles'], got):          # the SAME object answered all of them before any is checked
             t = ray_hit(spec, ang)
             e = c + case['ratio'] * t * b.cis(ang)
-            if abs(p - e) > tight(spec, t):
+            if abs(p - e) > tight(spec, t, case['ratio']):
                 return ('close:angle:%s%s' % (kind, scaled_class(spec)),
                         'get_border_point(%r, %r) = %r, the ray in that direction leaves the cell at %r (angles asked: %r)'
                         % (ang, case['ratio'], p, e, case['angles']))
@@ -627,7 +638,7 @@ def plan_ratio(ctx, plan, case):
             if impl is None and not m.startswith('error'):
                 mp = b.fpts(m)[0]
                 # relative to the distance of the point from the centre: a ratio of 1e-12 is compared at 1e-9 of ITS size
-                ok = abs(p - mp) <= 1e-9 * abs(mp - c) + 64 * EPS * abs(c)
+                ok = abs(p - mp) <= 1e-9 * abs(mp - c) + rounding(spec, abs(r))
                 ctx.corr('close.ratio.' + api, {'spec': spec, 'angle': ang, 'ratio': r}, 'match' if ok else repr(p),
                          'match' if ok else repr(mp), key=key)
             else:
@@ -650,7 +661,7 @@ def plan_angle(ctx, plan, case):
         for a, p, m in zip(case['angles'], pts, outs):
             mp = b.fpts(m)[0] if not m.startswith('error') else None
             # two of the close directions differ by >= 5e-11 of the distance: compared at 1e-11
-            ok = mp is not None and abs(p - mp) <= 1e-11 * (abs(mp - c) + b.shape_size(spec)) + 64 * EPS * abs(c)
+            ok = mp is not None and abs(p - mp) <= 1e-11 * (abs(mp - c) + b.shape_size(spec)) + rounding(spec, case['ratio'])
             ctx.corr('close.angle', {'spec': spec, 'angle': a, 'ratio': case['ratio']}, 'match' if ok else repr(p),
                      'match' if ok else m, key=('c15a', repr(spec), a))
         ctx.branch('R15:corr:angle')
@@ -1118,6 +1129,49 @@ def _o_buffer(case):
                 return cls + ':' + ctype + ':differs-from-fresh-lists', (
                     'cell %s: %s with the refilled buffers, %s when every call is given fresh lists of the same contents' % (x.id, px[:2], py[:2]))
         return None
+    if api == 'add_user':
+        # ONE Node object: offered, rejected (outside), given a new position by the caller, offered again
+        spec = case['spec']
+        sc = b.spec_scale(spec)
+        ref = b.ref_vertices(spec)
+        obj = b.make_shape(spec)
+        node = cell.Node(0j)
+        n_ok = 0
+        for q in case['points']:
+            p = b.cx(q)
+            if b.boundary_dist(ref, p) < 1e-9 * sc:
+                continue
+            node.pos = p
+            exp = b.winding_inside(ref, p)
+            try:
+                obj.add_user(node, relative_pos_bool=False)
+                got = True
+            except ValueError:
+                got = False
+            if got != exp:
+                return cls + ':' + spec['kind'], ('the reused Node at %r was %s; the point is %s the cell (earlier offers: %r)'
+                                                  % (p, 'accepted' if got else 'rejected', 'inside' if exp else 'outside', case['points']))
+            if got:
+                n_ok += 1
+                if abs(complex(obj.users[-1].pos) - p) > b.TOL * sc or obj.users[-1] is not node:
+                    return cls + ':' + spec['kind'] + ':position', 'user at %r, the Node was offered at %r' % (obj.users[-1].pos, p)
+                node = cell.Node(0j)          # an accepted Node belongs to the cell: the caller goes on with another one
+            elif complex(node.pos) != p:
+                return cls + ':' + spec['kind'] + ':argument-changed', 'the rejected Node was moved to %r' % (node.pos,)
+        if obj.num_users != n_ok:
+            return cls + ':' + spec['kind'] + ':count', '%d users after %d accepted offers' % (obj.num_users, n_ok)
+        # equal contents in another object
+        tw = b.make_shape(spec)
+        for q in case['points']:
+            try:
+                tw.add_user(cell.Node(b.cx(q)), relative_pos_bool=False)
+            except ValueError:
+                pass
+        if [complex(u.pos) for u in tw.users] != [complex(u.pos) for u in obj.users] and not any(
+                b.boundary_dist(ref, b.cx(q)) < 1e-9 * sc for q in case['points']):
+            return cls + ':' + spec['kind'] + ':differs-from-fresh-nodes', 'users %s, with a fresh Node per offer %s' % (
+                [u.pos for u in obj.users][:3], [u.pos for u in tw.users][:3])
+        return None
     if api == 'same_object':
         spec = case['spec']
         obj = b.make_shape(spec)
@@ -1170,11 +1224,23 @@ def gen_buffer_cases(rng, quick):
             if scen == 'refilled-in-place' and container == 'list':
                 c['colors'] = [[rng.choice(b.COLORS) for _ in range(m)] for _ in range(k)]
             cases.append(c)
-    for kind in ('hex', 'sec3', 'square', 'rect', 'circle'):
+    for kind in ('hex', 'sec3', 'square'):
+        spec = b.gen_spec(rng, [kind], 0)
+        size = b.shape_size(spec)
+        pts = []
+        for _ in range(rng.randint(3, 6)):      # outside, outside, inside, ...: rejected offers precede accepted ones
+            far = rng.chance(0.5)
+            pts.append(b.c2(b.cx(spec['pos']) + size * (rng.uniform(1.5, 4.0) if far else rng.uniform(0.0, 0.45)) * b.cis(rng.uniform(0, 360))))
+        pts[0] = b.c2(b.cx(spec['pos']) + 3.0 * size)
+        pts[-1] = b.c2(b.cx(spec['pos']) + 0.2 * size * b.cis(rng.uniform(0, 360)))
+        cases.append({'api': 'add_user', 'scenario': 'refilled-in-place:Node', 'spec': spec, 'points': pts})
+    for kind in ('hex', 'sec3', 'square', 'rect', 'circle', 'wrap', 'sector'):
         spec = b.gen_spec(rng, [kind], 0)
         calls = [[round(rng.uniform(-360, 360), 2), rng.choice([0.5, 1.0, 0.25]), b.gen_queries(rng, spec, 1)[0]] for _ in range(rng.randint(2, 4))]
         cases.append({'api': 'scalar_buffer', 'scenario': '0-d-refilled', 'spec': spec, 'calls': calls,
                       'users': kind in ('hex', 'sec3', 'square')})
+        if kind == 'sector':
+            continue
         cases.append({'api': 'same_object', 'scenario': 'object-in-two-roles', 'spec': spec, 'angle': b.gen_rot(rng)})
     for ctype, n in (('simple', 7), ('3sec', 3), ('square', 4)):
         base = {'type': ctype, 'n': n, 'R': b.gen_radius(rng), 'rot': b.gen_rot(rng), 'pos': b.gen_pos(rng)}
@@ -1331,7 +1397,7 @@ REQUIRED = ['R15:oracle:ratio', 'R15:oracle:angle', 'R15:oracle:query', 'R15:ora
             'R15:corr:query', 'R15:corr:min_dist', 'R15:corr:cluster', 'R15:corr:pointprocess', 'R15:corr:setter',
             'R15:corr:setter:tiny', 'R15:close-setter-values', 'R15:close-setter-values:tiny',
             'R16:oracle:calc_rotated_pos', 'R16:oracle:from_complex_array_to_real_matrix', 'R16:oracle:add_border_user',
-            'R16:oracle:scalar_buffer', 'R16:oracle:same_object', 'R16:oracle:Cluster.add_random_users',
+            'R16:oracle:scalar_buffer', 'R16:oracle:same_object', 'R16:oracle:add_user', 'R16:oracle:Cluster.add_random_users',
             'R16:oracle:Cluster.add_border_users', 'R16:oracle:Cluster.delete_all_users', 'R16:refilled-in-place',
             'R16:modified-after-call', 'R16:same-object-two-roles', 'R16:corr:calc_rotated_pos', 'R16:corr:add_border_user',
             'R16:corr:Cluster.add_random_users']
